@@ -57,6 +57,24 @@ def layersOf (sid : String) (p1 p2 : Nat) : Option (List LayerKind) :=
   | "sa_map_sza" => some [.sa "inv" p1 p2, .sza "inv" p1 p2]
   | "r9_map" => some [.r9]
   | "szac_map" => some [.szac p1 p2, .sac p1 p2, .r9]
+  -- type-aware API coverage (API_COVERAGE_A.md): `map` onto a different backend type keeps the
+  -- structure's own arrays (the new backend answers what it offers); `into_inner` hands back the
+  -- wrapped structure untouched; `AddNumBits` raw-parts round trip; the `rank_small!` macro
+  | "r9_map_sa" => some [.r9, .sa "inv" p1 p2]
+  | "rs_map_sa" => some [.rs p1, .sa "inv" p2 1]
+  | "sac_map" => some [.sac p1 p2, .r9]
+  | "r9_inner_sa" => some [.sa "inv" p1 p2]
+  | "s9_inner" => some [.r9]
+  | "sa_inner" => some [.r9]
+  | "sza_inner" => some [.sa "inv" p1 p2]
+  | "sa_anb" => some [.sa "inv" p1 p2]
+  | "sac_inner" => some [.r9]
+  | "szac_inner" => some [.sac p1 p2]
+  | "rs_inner" => some [.rs p1]
+  | "ss_inner" => some [.rs p1]
+  | "szs_inner" => some [.rs p1]
+  | "szs_ss_inner" => some [.ss p1 (some p2), .rs p1]
+  | "rs_macro" => some [.rs p1]
   | "sac" => some [.sac p1 p2]
   | "szac" => some [.szac p1 p2]
   | "szac_sac_r9" => some [.szac p1 p2, .sac p1 p2, .r9]
